@@ -103,9 +103,36 @@ type regReq struct {
 }
 
 type memReg struct {
-	mu    sync.Mutex
-	blobs map[string][]byte
-	log   []regReq
+	mu      sync.Mutex
+	blobs   map[string][]byte
+	log     []regReq
+	gates   map[string]chan struct{} // host -> requests to it are held until the gate is closed (scripted stall)
+	stalled map[string]int           // host -> requests that arrived while the gate was shut
+}
+
+// stall makes every request to host wait until release(host).
+func (m *memReg) stall(host string) {
+	m.mu.Lock()
+	if m.gates == nil {
+		m.gates, m.stalled = map[string]chan struct{}{}, map[string]int{}
+	}
+	m.gates[host] = make(chan struct{})
+	m.mu.Unlock()
+}
+
+func (m *memReg) release(host string) {
+	m.mu.Lock()
+	if g := m.gates[host]; g != nil {
+		close(g)
+		delete(m.gates, host)
+	}
+	m.mu.Unlock()
+}
+
+func (m *memReg) stalledCount(host string) int {
+	m.mu.Lock()
+	defer m.mu.Unlock()
+	return m.stalled[host]
 }
 
 func (m *memReg) snapshot() []regReq {
@@ -124,7 +151,14 @@ func (m *memReg) RoundTrip(req *http.Request) (*http.Response, error) {
 	}
 	m.mu.Lock()
 	b, ok := m.blobs[rr.Digest]
+	gate := m.gates[rr.Host]
+	if gate != nil {
+		m.stalled[rr.Host]++
+	}
 	m.mu.Unlock()
+	if gate != nil {
+		<-gate // the request is logged when it is answered, i.e. after the release
+	}
 	resp := &http.Response{Proto: "HTTP/1.1", ProtoMajor: 1, ProtoMinor: 1, Header: http.Header{}, Request: req, Body: http.NoBody}
 	resp.Header.Set("Content-Type", "application/octet-stream")
 	switch {
@@ -301,13 +335,18 @@ func l3Child(r *vf.Run) {
 			}
 		}
 	}
+	for round := 0; round < r.N(1, 3); round++ {
+		for _, fl := range flavours {
+			l3Shared(r, reg, blobs, fl, round)
+		}
+	}
 	// requests that belong to no mount of this stage at all
 	known := map[string]bool{}
 	for i := 1; i <= mountNo; i++ {
 		known[fmt.Sprintf("l3-%d.example.com", i)] = true
 	}
 	for _, q := range reg.snapshot() {
-		if !known[q.Host] {
+		if !known[q.Host] && !strings.HasPrefix(q.Host, "l3s-") {
 			r.Violate("l3:request-to-unknown-registry-host", "a request went to a host that no pulled reference names: "+q.Host, map[string]any{"request": fmt.Sprintf("%+v", q)})
 		}
 	}
@@ -448,22 +487,8 @@ func l3Mount(r *vf.Run, reg *memReg, tocOffs map[string]int64, fl *flavour, m *m
 		return
 	}
 	// L3b
-	size := int64(len(reg.blobs[target.Dig.String()]))
-	p := m.Prefetch
-	if p > size {
-		p = size
-	}
-	if p < 0 {
-		p = 0
-	}
-	u := union(iv)
-	winLo := (p+l3Chunk-1)/l3Chunk*l3Chunk + 3*l3Chunk              // chunk rounding + the tail of the last file starting inside the range (< 1 chunk, itself chunk-rounded)
-	winHi := tocOffs[target.Dig.String()]/l3Chunk*l3Chunk - l3Chunk // resolving reads footer and TOC (chunk-aligned) at the end of the blob
-	ranges := fmt.Sprint(u)
-	if !covers(u, 0, p) {
-		r.Violate("l3:"+fl.name+":prefetch-size-label-not-honoured:too-little", fmt.Sprintf("label says %d (default %d): bytes [0,%d) of the %d-byte landmark-less layer were not fetched before Check returned", m.Prefetch, l3DefaultPrefetch, p, size), withKV(replay, "fetched", ranges))
-	} else if intersects(u, winLo, winHi) {
-		r.Violate("l3:"+fl.name+":prefetch-size-label-not-honoured:too-much", fmt.Sprintf("label says %d (default %d): bytes inside [%d,%d) were fetched although nothing read them", m.Prefetch, l3DefaultPrefetch, winLo, winHi), withKV(replay, "fetched", ranges))
+	if clause, what, ranges := prefetchVerdict(iv, m.Prefetch, int64(len(reg.blobs[target.Dig.String()])), tocOffs[target.Dig.String()]); clause != "" {
+		r.Violate("l3:"+fl.name+":prefetch-size-label-not-honoured:"+clause, fmt.Sprintf("label says %d (default %d): %s", m.Prefetch, l3DefaultPrefetch, what), withKV(replay, "fetched", ranges))
 	} else {
 		r.Count("l3_prefetch_size_honoured", 1)
 		r.NonTrivial("l3 " + fl.name + " " + m.describe())
@@ -475,5 +500,236 @@ func l3Mount(r *vf.Run, reg *memReg, tocOffs map[string]int64, fl *flavour, m *m
 			rs = append(rs, fmt.Sprintf("%s %s/%s %s -> %d", q.Method, q.Repo, shortDig(digest.Digest(q.Digest)), q.Range, q.Status))
 		}
 		r.Sample(map[string]any{"stage": "l3", "flavour": fl.name, "ref": m.Ref, "prefetch": m.Prefetch, "requests": rs})
+	}
+}
+
+// prefetchVerdict judges the byte ranges of one landmark-less blob that were fetched by
+// the time Check returned against the prefetch size want that Mount had to use.
+func prefetchVerdict(iv []interval, want, size, tocOff int64) (clause, what, ranges string) {
+	p := want
+	if p > size {
+		p = size
+	}
+	if p < 0 {
+		p = 0
+	}
+	u := union(iv)
+	winLo := (p+l3Chunk-1)/l3Chunk*l3Chunk + 3*l3Chunk // chunk rounding + the tail of the last file starting inside the range (< 1 chunk, itself chunk-rounded)
+	winHi := tocOff/l3Chunk*l3Chunk - l3Chunk          // resolving reads footer and TOC (chunk-aligned) at the end of the blob
+	ranges = fmt.Sprint(u)
+	if !covers(u, 0, p) {
+		return "too-little", fmt.Sprintf("bytes [0,%d) of the %d-byte landmark-less layer were not fetched before Check returned", p, size), ranges
+	}
+	if intersects(u, winLo, winHi) {
+		return "too-much", fmt.Sprintf("bytes inside [%d,%d) were fetched although nothing read them", winLo, winHi), ranges
+	}
+	return "", "", ranges
+}
+
+// targetRanges: the GET ranges (probes excluded) answered for digest dg on host.
+func targetRanges(reg *memReg, host, dg string) (iv []interval, n int) {
+	for _, q := range reg.snapshot() {
+		if q.Host != host || q.Digest != dg {
+			continue
+		}
+		n++
+		if q.Method == http.MethodGet && q.Status/100 == 2 && q.lo >= 0 && !(q.lo == 0 && q.hi == 1) {
+			iv = append(iv, interval{q.lo, q.hi + 1})
+		}
+	}
+	return
+}
+
+// ---------------------------------------------------------------------------
+// ONE filesystem, several mounts (as the daemon): the prefetch size parsed from the labels
+// of one Mount must not leak into another Mount.
+//
+//	S1  Mount(A, label PA) is held inside Resolve by the registry (its first request is
+//	    stalled by the scripted RoundTripper); meanwhile Mount(B, label PB) and Check(B) run to
+//	    completion on the same filesystem; then A is released, Mount(A) returns, Check(A).
+//	    A's prefetch must have A's size, B's prefetch B's (both orders of small/large).
+//	S2  Mount(X, label PX), Check(X), then Mount(Y) with NO prefetch label, Check(Y):
+//	    Y must be prefetched with cfg.PrefetchSize (both PX < default and PX > default).
+//
+// Decided on the request log after Check returned (prefetch completion); the interleaving
+// of S1 is established on state (a stalled request of A is pending, Mount(A) has not
+// returned when Check(B) is over), never on time; if it cannot be established the case is
+// inconclusive.
+
+type sharedMount struct {
+	host, ref, mp string
+	blob          l3Blob
+	lbls          map[string]string
+	want          int64 // prefetch size Mount has to use
+}
+
+func (sm *sharedMount) prepare(r *vf.Run, fl *flavour, prefetch int64, withLabel bool) bool {
+	m := &mcase{Name: "l3-shared", Prefetch: prefetch, MT: ocispec.MediaTypeImageManifest, Ref: sm.ref,
+		Config: child{MT: ocispec.MediaTypeImageConfig, Dig: digest.FromString("cfg " + sm.ref), Size: 10},
+		Layers: []child{
+			{MT: "application/vnd.in-toto+json", Dig: digest.FromString("att " + sm.ref), Size: 5},
+			{MT: ocispec.MediaTypeImageLayerGzip, Dig: sm.blob.dig, Size: int64(len(sm.blob.data)), Layer: true,
+				Ann: map[string]string{estargz.TOCJSONDigestAnnotation: sm.blob.toc.String()}},
+		}}
+	out, base, err, panicked, _, _ := runWriter(fl, m)
+	if panicked || err != nil || base == nil || len(out) != 3 {
+		r.Inconclusive("l3 shared: writer did not produce labels")
+		return false
+	}
+	sm.lbls = snapshots.FilterInheritedLabels(out[2].Annotations)
+	sm.want = prefetch
+	if !withLabel {
+		// a client that does not set the stargz prefetch label (e.g. containerd's CRI plugin)
+		delete(sm.lbls, config.TargetPrefetchSizeLabel)
+		sm.want = l3DefaultPrefetch
+	}
+	return true
+}
+
+func l3Shared(r *vf.Run, reg *memReg, blobs []l3Blob, fl *flavour, round int) {
+	var hmu sync.Mutex
+	hosts := source.RegistryHosts(func(rs reference.Spec) ([]docker.RegistryHost, error) {
+		hmu.Lock()
+		defer hmu.Unlock()
+		return []docker.RegistryHost{{
+			Client: &http.Client{Transport: reg}, Host: rs.Hostname(), Scheme: "https", Path: "/v2",
+			Capabilities: docker.HostCapabilityPull | docker.HostCapabilityResolve,
+		}}, nil
+	})
+	root := filepath.Join(r.Scratch, fmt.Sprintf("fs-shared-%s-%d", fl.name, round))
+	_ = os.MkdirAll(root, 0o755)
+	cfg := config.Config{
+		NoBackgroundFetch: true, NoPrometheus: true, PrefetchSize: l3DefaultPrefetch, PrefetchTimeoutSec: 3600,
+		BlobConfig: config.BlobConfig{ChunkSize: l3Chunk, ForceSingleRangeMode: true, MaxRetries: 1, MinWaitMSec: 1, MaxWaitMSec: 5},
+	}
+	fsys, err := stargzfs.NewFilesystem(root, cfg, stargzfs.WithGetSources(fl.reader(hosts))) // THE one filesystem
+	if err != nil {
+		r.Inconclusive("l3 shared: NewFilesystem: " + errClass(err))
+		return
+	}
+	ctx := context.Background()
+	seq := 0
+	newMount := func(tag string, b l3Blob) *sharedMount {
+		seq++
+		host := fmt.Sprintf("l3s-%s-%d-%d-%s.example.com", fl.name, round, seq, tag)
+		mp := filepath.Join(r.Scratch, fmt.Sprintf("mnt-shared-%s-%d-%d", fl.name, round, seq))
+		_ = os.MkdirAll(mp, 0o755)
+		return &sharedMount{host: host, ref: fmt.Sprintf("%s/shared/%s:v%d", host, tag, seq), mp: mp, blob: b}
+	}
+	mountCheck := func(sm *sharedMount) bool {
+		var merr, cerr error
+		if !r.Watchdog(2*time.Minute, "l3 shared Mount", func() { merr = fsys.Mount(ctx, sm.mp, sm.lbls) }) {
+			return false
+		}
+		if merr != nil {
+			r.Inconclusive("l3 shared: Mount failed: " + errClass(merr))
+			return false
+		}
+		if !r.Watchdog(2*time.Minute, "l3 shared Check", func() { cerr = fsys.Check(ctx, sm.mp, sm.lbls) }) {
+			return false
+		}
+		if cerr != nil {
+			r.Inconclusive("l3 shared: Check failed: " + errClass(cerr))
+			return false
+		}
+		return true
+	}
+	judge := func(sm *sharedMount, scenario, role string, labelled bool, other int64) {
+		iv, n := targetRanges(reg, sm.host, sm.blob.dig.String())
+		replay := map[string]any{"stage": "l3-shared", "flavour": fl.name, "scenario": scenario, "role": role, "ref": sm.ref,
+			"prefetch_this_mount_must_use": sm.want, "prefetch_of_the_other_mount": other, "configured_default": l3DefaultPrefetch}
+		if n == 0 {
+			r.Violate("l3:"+fl.name+":target-not-resolved-under-reference", "Mount succeeded but the target blob was never requested under the pulled reference ("+scenario+")", replay)
+			return
+		}
+		clause, what, ranges := prefetchVerdict(iv, sm.want, int64(len(sm.blob.data)), sm.blob.tocOff)
+		r.Count("l3_shared_mounts_judged", 1)
+		if clause == "" {
+			r.Count("l3_shared_prefetch_size_right", 1)
+			r.NonTrivial(fmt.Sprintf("l3-shared %s %s %s %d/%d", fl.name, scenario, role, sm.want, other))
+			return
+		}
+		key := "l3:" + fl.name + ":prefetch-size-label-not-honoured:" + clause + ":" + scenario
+		msg := fmt.Sprintf("ONE filesystem, scenario %s: the %s mount carries prefetch label %d (the other mount %d, configured default %d): %s", scenario, role, sm.want, other, l3DefaultPrefetch, what)
+		if !labelled {
+			key = "l3:" + fl.name + ":configured-prefetch-size-not-used:" + clause + ":" + scenario
+			msg = fmt.Sprintf("ONE filesystem, scenario %s: a mount WITHOUT prefetch label must use the configured default %d (the labelled mount before it had %d): %s", scenario, l3DefaultPrefetch, other, what)
+		}
+		r.Violate(key, msg, withKV(replay, "fetched", ranges))
+	}
+	unmount := func(sms ...*sharedMount) {
+		for _, sm := range sms {
+			_ = fsys.Unmount(ctx, sm.mp)
+		}
+	}
+
+	// S1, both orders
+	for _, sz := range [][2]int64{{150000, 650000}, {650000, 100000}} {
+		r.Eval(1)
+		a, b := newMount("a", blobs[0]), newMount("b", blobs[1])
+		if !a.prepare(r, fl, sz[0], true) || !b.prepare(r, fl, sz[1], true) {
+			continue
+		}
+		reg.stall(a.host)
+		doneA := make(chan error, 1)
+		go func() { doneA <- fsys.Mount(ctx, a.mp, a.lbls) }()
+		reached := false
+		for i := 0; i < 12000 && !reached; i++ { // state: a request of A is pending in the registry (watchdog 60 s)
+			if reached = reg.stalledCount(a.host) > 0; !reached {
+				time.Sleep(5 * time.Millisecond)
+			}
+		}
+		if !reached {
+			reg.release(a.host)
+			r.Inconclusive("l3 shared S1: Mount(A) never reached the registry")
+			continue
+		}
+		okB := mountCheck(b)
+		stillHeld := len(doneA) == 0 // Mount(A) has not returned although B is completely mounted and prefetched
+		reg.release(a.host)
+		var errA error
+		gotA := r.Watchdog(2*time.Minute, "l3 shared Mount(A) after release", func() { errA = <-doneA })
+		if !gotA {
+			continue
+		}
+		if errA != nil || !okB || !stillHeld {
+			r.Inconclusive(fmt.Sprintf("l3 shared S1: interleaving not realised (Mount(A) err=%v, B ok=%v, A held=%v)", errA != nil, okB, stillHeld))
+			if errA == nil {
+				unmount(a)
+			}
+			if okB {
+				unmount(b)
+			}
+			continue
+		}
+		var cerr error
+		if !r.Watchdog(2*time.Minute, "l3 shared Check(A)", func() { cerr = fsys.Check(ctx, a.mp, a.lbls) }) || cerr != nil {
+			r.Inconclusive("l3 shared S1: Check(A) failed")
+			unmount(a, b)
+			continue
+		}
+		r.Count("l3_shared_s1_interleavings_realised", 1)
+		judge(a, "mount-overtaken-by-another-mount", "stalled", true, b.want)
+		judge(b, "mount-overtaken-by-another-mount", "overtaking", true, a.want)
+		unmount(a, b)
+	}
+	// S2, labelled size below and above the default
+	for _, px := range []int64{100000, 5 << 30} {
+		r.Eval(1)
+		x, y := newMount("x", blobs[2]), newMount("y", blobs[3])
+		if !x.prepare(r, fl, px, true) || !y.prepare(r, fl, 0, false) {
+			continue
+		}
+		if !mountCheck(x) {
+			continue
+		}
+		if !mountCheck(y) {
+			unmount(x)
+			continue
+		}
+		r.Count("l3_shared_s2_sequences_run", 1)
+		judge(x, "unlabelled-mount-after-labelled-mount", "labelled", true, y.want)
+		judge(y, "unlabelled-mount-after-labelled-mount", "unlabelled", false, px)
+		unmount(x, y)
 	}
 }
